@@ -50,6 +50,8 @@ class Stats:
         self.solver_time = {}
         self.queries = 0
         self.diffed = 0
+        self.diffed_cvc5 = 0
+        self.cvc5_errors = 0
         self.samples = []
         self.kinds = {}
         self.functions = set()
@@ -134,13 +136,29 @@ class Session:
         return res, None
 
     def _diff(self, solver, res, label):
-        """Re-run the query with the z3 4.8.12 binary through SMT-LIB2 and compare."""
-        if not os.path.exists(Z3_OLD):
-            return
+        """Re-run the query with the z3 4.8.12 binary and with the cvc5 1.0 binary through SMT-LIB2 and compare."""
         text = solver.to_smt2()
         with tempfile.NamedTemporaryFile('w', suffix='.smt2', delete=False, dir=_scratch()) as f:
             f.write(text)
             path = f.name
+        try:
+            if os.path.exists(Z3_OLD):
+                self._diff_z3old(path, res, label)
+            if self._diff_cvc5(path, text, res, label) == 'parse-error':
+                # z3 prints unary sums `(+ t)`, which cvc5 1.0 rejects: retry on the assertions after z3's term simplifier
+                z3 = z3mod()
+                s2 = z3.Solver()
+                for a in solver.assertions():
+                    s2.add(z3.simplify(a))
+                self._diff_cvc5(path, s2.to_smt2(), res, label, retry=True)
+        finally:
+            if os.path.exists(path):
+                try:
+                    os.unlink(path)
+                except OSError:
+                    pass
+
+    def _diff_z3old(self, path, res, label):
         try:
             t = time.time()
             p = subprocess.run([Z3_OLD, '-T:6', path], capture_output=True, text=True, timeout=12)
@@ -154,14 +172,47 @@ class Session:
             if first in ('sat', 'unsat'):
                 self.stats.diffed += 1
                 if first != res:
+                    keep = os.path.join(_scratch(), 'disagree-%s.smt2' % short_hash(open(path).read()))
+                    shutil_copy(path, keep)
                     raise HarnessError('solver disagreement on %s: z3-new=%s z3-old=%s (%s)'
-                                       % (label, res, first, path))
+                                       % (label, res, first, keep))
+        except subprocess.TimeoutExpired:
+            pass
+
+    def _diff_cvc5(self, path, text, res, label, retry=False):
+        """Third solver: the cvc5 1.0 binary on the same SMT-LIB2 text (logic ALL).  Anything but sat/unsat is inconclusive."""
+        import shutil
+        exe = shutil.which('cvc5')
+        if exe is None or 'declare-datatypes' in text:
+            return
+        p2 = path + '.cvc5.smt2'
+        with open(p2, 'w') as f:
+            f.write('(set-logic ALL)\n' + text)
+        try:
+            t = time.time()
+            p = subprocess.run([exe, '--tlimit=6000', p2], capture_output=True, text=True, timeout=12)
+            self.stats.add_time('cvc5-1.0(bin)', time.time() - t)
+            out = [l for l in p.stdout.strip().splitlines() if l.strip()]
+            if p.returncode != 0 or any('(error' in l for l in out) or 'rror' in p.stderr:
+                if 'Parse Error' in (p.stderr + p.stdout) and not retry:
+                    return 'parse-error'
+                self.stats.cvc5_errors += 1
+                if self.stats.cvc5_errors <= 2:
+                    self.stats.notes.append('diff: cvc5 inconclusive on %s: %s' % (label, (p.stderr.strip() or ' '.join(out))[:160]))
+                return
+            first = out[0] if out else 'unknown'
+            if first in ('sat', 'unsat'):
+                self.stats.diffed_cvc5 += 1
+                if first != res:
+                    keep = os.path.join(_scratch(), 'disagree-%s.smt2' % short_hash(text))
+                    os.replace(p2, keep)
+                    raise HarnessError('solver disagreement on %s: z3-new=%s cvc5=%s (%s)' % (label, res, first, keep))
         except subprocess.TimeoutExpired:
             pass
         finally:
-            if os.path.exists(path):
+            if os.path.exists(p2):
                 try:
-                    os.unlink(path)
+                    os.unlink(p2)
                 except OSError:
                     pass
 
@@ -292,6 +343,11 @@ class Session:
 
     def elapsed(self):
         return time.time() - self.t0
+
+
+def shutil_copy(a, b):
+    import shutil
+    shutil.copyfile(a, b)
 
 
 def _scratch():
